@@ -130,6 +130,8 @@ def structure_correspondence(chk, progs):
     todo = []
     for p in progs:
         form = p[2]
+        if any(c[0] == "dosetv" for c in (form[2] if form[0] == "comp" else form[1])):
+            continue      # :do (setv ..) is an Assign statement in the code, a plain :do in the model
         if form[0] == "for" and not (len(form[2]) == 1 and form[2][0][0] == "expr" and not cp.has(form[2][0][1], "stm")):
             continue
         todo.append(p)
